@@ -8,7 +8,7 @@
 #[verifier::external_type_specification] #[verifier::external_body] pub struct ExStringName(StringName);
 #[verifier::external_type_specification] #[verifier::external_body] pub struct ExTrueName(TrueName);
 #[verifier::external_type_specification] pub struct ExName(Name);
-#[verifier::external_type_specification] #[verifier::external_body] pub struct ExExpected(Expected);
+#[verifier::external_type_specification] pub struct ExExpected(Expected);
 #[verifier::external_type_specification] #[verifier::external_body] pub struct ExConstraint(Constraint);
 #[verifier::external_type_specification] #[verifier::external_body] pub struct ExContext(Context);
 #[verifier::external_type_specification] #[verifier::external_body] pub struct ExTypeErr(TypeErr);
@@ -115,6 +115,15 @@ pub open spec fn next_offset(e: Environment, global: VarMapping, var: Seq<char>)
 }
 
 //@@ IFDEF ENV_REAL
+/// A-ARITH: a shadowing offset READ from a mapping is below usize::MAX (offsets start at 0 and grow by one per
+/// definition of the same name; `*offset + 1` in insert_var cannot wrap for any program that fits in memory).  Invoked
+/// only inside insert_var, on the mapping it reads.
+#[verifier::external_body]
+pub proof fn axiom_offsets_small(m: VarMapping)
+    ensures forall|v: Seq<char>| hm(m).contains_key(v) ==> #[trigger] hm(m)[v] < usize::MAX,
+{
+}
+
 impl Environment {
 //@@ FN src/check/constrain/generate/env.rs | impl Environment | in_class
     ensures r == (Environment { class: Some(*class_name), ..*self }),            //# frame_only_class [C09,C08]
@@ -157,7 +166,9 @@ impl Environment {
 //@@ REPLACE
 //@@< vec![(mutable, expect.clone())].into_iter().collect::<HashSet<_>>()
 //@@> verif_singleton(mutable, expect.clone())
-    requires next_offset(*self, *var_mapping, var@) <= usize::MAX,
+//@@ HINT before
+//@@< let offset = if let Some($off) = self.var_mapping.get(var) {
+//@@> proof { axiom_offsets_small(self.var_mapping); }
     ensures
         r == (Environment { vars: r.vars, var_mapping: r.var_mapping, ..*self }), //# frame_only_vars_and_mapping [C09,C08]
         hm(r.var_mapping) == hm(self.var_mapping).insert(var@, next_offset(*self, *var_mapping, var@) as usize), //# new_definition_gets_the_next_offset [C09]
@@ -197,6 +208,13 @@ impl Environment {
     pub fn get_var(&self, var: &str, var_mapping: &VarMapping) -> (r: Option<HashSet<(bool, Expected)>>)
         ensures r is Some <==> visible(*self, *var_mapping, var@),
             r matches Some(s) ==> s == hm(self.vars)[lookup_key(*self, *var_mapping, var@)],
+    { unimplemented!() }
+    #[verifier::external_body]
+    pub fn insert_var(&self, mutable: bool, var: &str, expect: &Expected, var_mapping: &VarMapping) -> (r: Environment)
+        ensures r == (Environment { vars: r.vars, var_mapping: r.var_mapping, ..*self }),
+            hm(r.var_mapping) == hm(self.var_mapping).insert(var@, next_offset(*self, *var_mapping, var@) as usize),
+            exists|s: HashSet<(bool, Expected)>| hs(s) == set![(mutable, *expect)]
+                && hm(r.vars) == hm(self.vars).insert(fmt_var(var@, next_offset(*self, *var_mapping, var@) as usize), s),
     { unimplemented!() }
     #[verifier::external_body]
     pub fn assigned_to(&self, var: &String) -> (r: Environment)
@@ -250,27 +268,47 @@ pub open spec fn grows(a: ConstrBuilder, b: ConstrBuilder) -> bool {
         && forall|p: Expected, c: Expected| has(a, p, c) ==> has(b, p, c) /* consequence, stated for the solver */
 }
 pub open spec fn has(b: ConstrBuilder, parent: Expected, child: Expected) -> bool { log(b).contains((parent, child)) }
-/// Expected::new(pos, &expect) / Expected::from(&AST): functions of their arguments (A-EXT)
-pub uninterp spec fn exp_new(pos: Position, e: Expect) -> Expected;
-pub uninterp spec fn exp_of(a: AST) -> Expected;
+/// Expected::new(pos, &expect) / Expected::from(&AST): what the real constructors build (verified in unit GENFLOW)
+pub open spec fn exp_new(pos: Position, e: Expect) -> Expected { Expected { pos: pos, expect: e, an_or_a: true } }
+pub open spec fn exp_of(a: AST) -> Expected { exp_new(a.pos, Expect::Expression { ast: a }) }
 pub open spec fn type_exp(pos: Position, n: Name) -> Expected { exp_new(pos, Expect::Type { name: n }) }
+pub assume_specification[<Expect as Clone>::clone](t: &Expect) -> (r: Expect) ensures r == *t;
 
 impl Expected {
+//@@ IFDEF ENV_REAL
+//@@ FN src/check/constrain/constraint/expected.rs | impl Expected | new
+    ensures r == exp_new(pos, *expect),                                          //# constructor_builds_the_stated_expectation [C05,C09]
+//@@ END
+//@@ ELSE
     #[verifier::external_body]
     pub fn new(pos: Position, expect: &Expect) -> (r: Expected) ensures r == exp_new(pos, *expect) { unimplemented!() }
+//@@ ENDIF
     #[verifier::external_body]
     pub fn none(pos: Position) -> Expected { unimplemented!() }
     #[verifier::external_body]
     pub fn any(pos: Position) -> Expected { unimplemented!() }
 }
+//@@ IFDEF ENV_REAL
+/// the real body of `impl From<&AST> for Expected`, emitted as an inherent method (an inherent `Expected::from` takes
+/// precedence at every call site and also serves `&Box<AST>` arguments by deref coercion, which is all the real
+/// `From<&Box<AST>>` does); vstd's own trait-level specification of `From` is thereby not involved
+impl Expected {
+//@@ FN src/check/constrain/constraint/expected.rs | impl From<&AST> for Expected | from
+    ensures r == exp_of(*ast),                                                   //# expectation_of_an_expression [C05,C09]
+//@@ END
+}
+//@@ ELSE
 impl From<&AST> for Expected {
     #[verifier::external_body]
     fn from(a: &AST) -> (r: Expected) ensures r == exp_of(*a) { unimplemented!() }
 }
+//@@ ENDIF
+//@@ IFNDEF ENV_REAL
 impl From<&Box<AST>> for Expected {
     #[verifier::external_body]
     fn from(a: &Box<AST>) -> (r: Expected) ensures r == exp_of(**a) { unimplemented!() }
 }
+//@@ ENDIF
 impl Constraint {
     #[verifier::external_body]
     pub fn truthy(msg: &str, expected: &Expected) -> Constraint { unimplemented!() }
@@ -295,6 +333,13 @@ impl ConstrBuilder {
     #[verifier::external_body]
     pub fn add_constr(&mut self, constraint: &Constraint, env: &Environment)
         ensures visits(*final(self)) == visits(*old(self)), mono(*old(self), *final(self)) /* consequence */, final(self).var_mapping == old(self).var_mapping, grows(*old(self), *final(self)) { unimplemented!() }
+    #[verifier::external_body]
+    pub fn temp_name(&mut self) -> (r: Name)
+        ensures visits(*final(self)) == visits(*old(self)), mono(*old(self), *final(self)) /* consequence */, final(self).var_mapping == old(self).var_mapping, log(*final(self)) == log(*old(self)), grows(*old(self), *final(self)) { unimplemented!() }
+    /// records a shadowing offset in the GLOBAL mapping only
+    #[verifier::external_body]
+    pub fn insert_var(&mut self, var: &str)
+        ensures visits(*final(self)) == visits(*old(self)), mono(*old(self), *final(self)) /* consequence */, log(*final(self)) == log(*old(self)), grows(*old(self), *final(self)) { unimplemented!() }
     #[verifier::external_body]
     pub fn branch_point(&mut self)
         ensures visits(*final(self)) == visits(*old(self)), mono(*old(self), *final(self)) /* consequence */, final(self).var_mapping == old(self).var_mapping, log(*final(self)) == log(*old(self)), grows(*old(self), *final(self)) { unimplemented!() }
